@@ -213,6 +213,17 @@ func (rn *runner) corpusPreBlock() {
 	for k := 0; k < 4 && !rn.dead; k++ {
 		rn.blockCase(time.Second, rn.metadataEntries(), "corpus:preblock:entries")
 	}
+	// PrepareProposal with a full candidate list while a verified item exists (found: the
+	// response exceeds MaxTxBytes and CometBFT refuses the proposal)
+	for k := 0; k < 12 && !rn.dead; k++ {
+		if vs, _ := w.h.App.DaKeeper.GetSpecificStatusData(w.h.Ctx(), datypes.Status_STATUS_VERIFIED); len(vs) > 0 {
+			for j := 0; j < 6; j++ {
+				rn.proposalCase("corpus:proposal:verified-item")
+			}
+			break
+		}
+		rn.blockCase(2*time.Second, nil, "corpus:preblock:wait-verified")
+	}
 	rn.blockCase(time.Second, [][]byte{[]byte("METADATA")}, "corpus:preblock:splitter-only")
 	rn.blockCase(time.Second, [][]byte{{1, 2, 3}, []byte("METADATA"), []byte("METADATA"), {}}, "corpus:preblock:odd")
 }
